@@ -237,3 +237,87 @@ Proof.
       * rewrite app_length. unfold zlen, len in *. lia.
     + f_equal. unfold PacketSize. lia.
 Qed.
+
+(* ------------------------------------------------------------------ case: adaptation_field_length = 0 (defect F7 lived here) *)
+Lemma ser_pkt_empty h pay : Iso.ser_pkt (Iso.mkLpkt h Iso.EmptyAF pay) = Iso.ser_hdr h ++ 0 :: pay.
+Proof. reflexivity. Qed.
+Lemma body_laf0 : Iso.ser_af_body Iso.laf0 = [0].
+Proof. reflexivity. Qed.
+Lemma laf0_ok : Iso.laf_ok Iso.laf0.
+Proof. unfold Iso.laf_ok, Iso.laf0. cbn. repeat split; try constructor; lia. Qed.
+
+Lemma set_payload_empty_af h pay d : let l := Iso.mkLpkt h Iso.EmptyAF pay in
+  Iso.wf_lpkt l -> Iso.afc h = 3 -> d <> [] ->
+  SetPayload_m (Iso.ser_pkt l) d = (Iso.ser_pkt (Iso.set_payload l d), Ok (N.min (len d) (Iso.capacity l))).
+Proof.
+  intros l W A3 ND.
+  pose proof (wf_is_pkt l W) as PK. pose proof (wf_hdr_of l W) as HO. pose proof (wf_len l W) as L188.
+  destruct (wf_flags l W) as (AFC & HA & _). cbn [Iso.lh l] in AFC, HA, HO. rewrite A3 in AFC, HA. change (3 / 2 =? 1) with true in HA.
+  set (p := Iso.ser_pkt l) in *.
+  assert (p = Iso.ser_hdr h ++ 0 :: pay) as PE by reflexivity.
+  assert (len pay = 183) as LP by (rewrite PE in L188; rewrite len_app, len_ser_hdr, len_cons in L188; lia).
+  assert (AFP.Length p = 0) as LEN by (unfold AFP.Length, get; rewrite PE; apply nthN_app_at; reflexivity).
+  assert (payloadStart_m p = 5) as PS by (unfold payloadStart_m; rewrite HA, LEN; reflexivity).
+  assert (stuffingStart_m p = 5) as SM by (unfold stuffingStart_m; rewrite HA, LEN; reflexivity).
+  unfold SetPayload_m. rewrite AFC. change (3 =? 2) with false. cbv iota. rewrite PS, SM.
+  change (PacketSize <? 5) with false. cbn [orb]. unfold SetPayload_prepare, freeSpace. rewrite SM.
+  assert (Iso.capacity l = 183) as CAP by reflexivity.
+  unfold Iso.set_payload. rewrite CAP. cbn [Iso.lf Iso.lh l].
+  destruct (Z.ltb_spec (zlen d) (188 - Z.of_N 5)) as [LT|GE].
+  - replace (len d <? 183) with true by (symmetry; apply N.ltb_lt; unfold zlen, len in *; lia).
+    replace (len d =? 183) with false by (symmetry; apply N.eqb_neq; unfold zlen, len in *; lia).
+    rewrite (set_afc3_noop p PK) by (rewrite ?HO, ?LEN; (exact A3 || lia)). cbn [fst].
+    rewrite LEN. change (0 =? 0) with true. cbv iota.
+    destruct pay as [|x pay']; [rewrite len_nil in LP; lia|]. rewrite len_cons in LP.
+    rewrite PE.
+    replace (Iso.ser_hdr h ++ 0 :: x :: pay') with ((Iso.ser_hdr h ++ [0]) ++ x :: pay') by (rewrite <- app_assoc; reflexivity).
+    rewrite (upd_app_at _ _ _ 0 5) by reflexivity.
+    replace ((Iso.ser_hdr h ++ [0]) ++ 0 :: pay') with (Iso.ser_hdr h ++ 0 :: Iso.ser_af_body Iso.laf0 ++ pay')
+      by (rewrite <- app_assoc; reflexivity).
+    destruct (finish_short (Iso.ser_hdr h) 0 Iso.laf0 pay' eq_refl laf0_ok
+                ltac:(rewrite body_laf0, len_cons, len_nil; lia) d) as [Q1 Q2].
+    + rewrite (has_af_prefix (Iso.ser_hdr h) (0 :: Iso.ser_af_body Iso.laf0 ++ pay') (0 :: x :: pay') eq_refl). rewrite <- PE. exact HA.
+    + exact ND.
+    + rewrite body_laf0, len_cons, len_nil. unfold zlen, len in *. lia.
+    + cbv zeta in Q1, Q2. rewrite Q1 in *.
+      replace (PacketSize <? 188 - len d) with false by (symmetry; apply N.ltb_ge; unfold PacketSize; lia).
+      rewrite Q2. f_equal.
+      * rewrite <- A3, with_afc_same. rewrite ser_pkt_af. rewrite len_repeatN.
+        change (Iso.ser_af_body Iso.laf0) with [0]. change (len [0]) with 1.
+        replace (1 + (182 - len d)) with (183 - len d) by (unfold zlen, len in *; lia).
+        replace (183 - len d - 1) with (182 - len d) by lia. reflexivity.
+      * f_equal. unfold PacketSize, zlen, len in *. lia.
+  - replace (len d <? 183) with false by (symmetry; apply N.ltb_ge; unfold zlen, len in *; lia).
+    rewrite HA. change (188 - (188 - Z.of_N 5 + 4 + 1))%Z with 0%Z.
+    unfold AFP.setLength. change (byteZ 0) with 0. rewrite PE.
+    rewrite (upd_app_at (Iso.ser_hdr h) _ _ 0 4) by reflexivity. rewrite <- PE, PS.
+    change (PacketSize <? 5) with false. cbv iota. f_equal.
+    + rewrite PE. replace (Iso.ser_hdr h ++ 0 :: pay) with ((Iso.ser_hdr h ++ [0]) ++ pay) by (rewrite <- app_assoc; reflexivity).
+      rewrite blit_app_over; [| reflexivity | unfold zlen, len in *; lia].
+      rewrite ser_pkt_empty. rewrite <- app_assoc. cbn [app]. do 2 f_equal. unfold takeN. f_equal. unfold len in *. lia.
+Qed.
+
+(* ------------------------------------------------------------------ case: no adaptation field, the data fills the packet *)
+Lemma set_payload_noaf_fill h pay d : let l := Iso.mkLpkt h Iso.NoAF pay in
+  Iso.wf_lpkt l -> 184 <= len d ->
+  SetPayload_m (Iso.ser_pkt l) d = (Iso.ser_pkt (Iso.set_payload l d), Ok (N.min (len d) (Iso.capacity l))).
+Proof.
+  intros l W LD.
+  pose proof (wf_len l W) as L188. destruct (wf_flags l W) as (AFC & HA & _).
+  assert (Iso.afc h = 1) as A1 by (destruct W as (_ & _ & _ & _ & _ & C); exact C).
+  cbn [Iso.lh l] in AFC, HA. rewrite A1 in AFC, HA. change (1 / 2 =? 1) with false in HA.
+  set (p := Iso.ser_pkt l) in *.
+  assert (p = Iso.ser_hdr h ++ pay) as PE by reflexivity.
+  assert (len pay = 184) as LP by (rewrite PE in L188; rewrite len_app, len_ser_hdr in L188; lia).
+  assert (payloadStart_m p = 4) as PS by (unfold payloadStart_m; rewrite HA; reflexivity).
+  assert (stuffingStart_m p = 4) as SM by (unfold stuffingStart_m; rewrite HA; reflexivity).
+  unfold SetPayload_m. rewrite AFC. change (1 =? 2) with false. cbv iota. rewrite PS, SM.
+  change (PacketSize <? 4) with false. cbn [orb]. unfold SetPayload_prepare, freeSpace. rewrite SM.
+  replace (zlen d <? 188 - Z.of_N 4)%Z with false by (symmetry; apply Z.ltb_ge; unfold zlen, len in *; lia).
+  rewrite HA, PS. change (PacketSize <? 4) with false. cbv iota.
+  unfold Iso.set_payload. change (Iso.capacity l) with 184.
+  replace (len d <? 184) with false by (symmetry; apply N.ltb_ge; lia). cbn [Iso.lf Iso.lh l].
+  f_equal.
+  - rewrite PE. rewrite blit_app_over; [| reflexivity | unfold len in *; lia].
+    unfold Iso.ser_pkt. cbn [Iso.lh Iso.lf Iso.lpayload Iso.ser_af app]. f_equal. unfold takeN. f_equal. unfold len in *. lia.
+Qed.
